@@ -58,6 +58,8 @@ type socket struct {
 	pingIntervalTimer atomic.Pointer[utils.Timer]
 
 	flushMu sync.Mutex
+	// set while flush runs its "flush"/"drain" listeners, which may call Send
+	flushEmitting atomic.Bool
 }
 
 func (s *socket) Protocol() int {
@@ -531,23 +533,38 @@ func (s *socket) sendPacket(
 
 // Attempts to flush the packets buffer.
 func (s *socket) flush() {
+	if s.flushEmitting.Load() {
+		// Called from a "flush" or "drain" listener (or beside one): the lock is
+		// not reentrant, and the flush that is emitting looks at the buffer again
+		// when its listeners have returned.
+		return
+	}
+
 	s.flushMu.Lock()
 	defer s.flushMu.Unlock()
 
-	if s.ReadyState() != "closed" && s.Transport().Writable() {
-		if wbuf := s.writeBuffer.AllAndClear(); len(wbuf) > 0 {
-			socket_log.Debug("flushing buffer to transport")
-			s.Emit("flush", wbuf)
-			s.server.Emit("flush", s, wbuf)
-			if packetsFn := s.packetsFn.AllAndClear(); len(packetsFn) > 0 {
-				s.sentCallbackFn.Push(packetsFn)
-			} else {
-				s.sentCallbackFn.Push(nil)
-			}
-			s.Transport().Send(wbuf)
-			s.Emit("drain")
-			s.server.Emit("drain", s)
+	for s.ReadyState() != "closed" && s.Transport().Writable() {
+		wbuf := s.writeBuffer.AllAndClear()
+		if len(wbuf) == 0 {
+			break
 		}
+		// the callbacks of exactly these packets travel with the batch
+		packetsFn := s.packetsFn.AllAndClear()
+		socket_log.Debug("flushing buffer to transport")
+		s.flushEmitting.Store(true)
+		s.Emit("flush", wbuf)
+		s.server.Emit("flush", s, wbuf)
+		s.flushEmitting.Store(false)
+		if len(packetsFn) > 0 {
+			s.sentCallbackFn.Push(packetsFn)
+		} else {
+			s.sentCallbackFn.Push(nil)
+		}
+		s.Transport().Send(wbuf)
+		s.flushEmitting.Store(true)
+		s.Emit("drain")
+		s.server.Emit("drain", s)
+		s.flushEmitting.Store(false)
 	}
 }
 
